@@ -3,8 +3,8 @@
 package tun
 
 import (
-	"time"
 	"testing"
+	"time"
 
 	"pgregory.net/rapid"
 	"verif/harness/common"
@@ -39,6 +39,6 @@ func TestC09B(t *testing.T) {
 		rec.Sample("bubble", map[string]any{"plan": p, "trace_head": Dump(br.Events, 0)[:min(len(br.Events), 40)]})
 		return nil
 	}
-	common.Drive(t, rec, func(rt *rapid.T) *Plan { return genPlanC09(rt) }, run)
+	common.Drive(t, rec, func(rt *rapid.T) *Plan { return withEdgeChannels(rt, genPlanC09(rt)) }, run)
 	completed = true
 }
